@@ -32,18 +32,24 @@ class FPInvariant:
 
     @staticmethod
     def _op(what, kind, u1, u2, v, k=None):
+        """returns (values of every live object AFTER the step, name of the exception raised or None): the operand is
+        inspected after the step also when the step raised (a failed in-place operation must not leave it invalid)"""
         import gearpy.units as gu
         x = getattr(gu, kind)(v, u1)
         live = [x]
-        if what == 'to':
-            live.append(x.to(u2))
-        elif what == 'to_inplace':
-            x.to(u2, inplace=True)
-        elif what == 'mul':
-            live.append(x * k)
-        elif what == 'div':
-            live.append(x / k)
-        return [o.value for o in live]
+        raised = None
+        try:
+            if what == 'to':
+                live.append(x.to(u2))
+            elif what == 'to_inplace':
+                x.to(u2, inplace=True)
+            elif what == 'mul':
+                live.append(x * k)
+            elif what == 'div':
+                live.append(x / k)
+        except (ValueError, ZeroDivisionError) as e:
+            raised = type(e).__name__
+        return [o.value for o in live], raised
 
     def _run(self, what, kind, u1, u2):
         def run(env):
@@ -52,9 +58,10 @@ class FPInvariant:
             if what != 'construct':
                 env.assume(z3.fpGT(FT(v), fp._c(0.0)))
             try:
-                return dict(vals=self._op(what, kind, u1, u2, v, k), raised=None)
-            except (ValueError, ZeroDivisionError) as e:
-                return dict(vals=[v] if what != 'construct' else [], raised=type(e).__name__)
+                vals, raised = self._op(what, kind, u1, u2, v, k)
+                return dict(vals=vals, raised=raised)
+            except (ValueError, ZeroDivisionError) as e:      # the constructor itself rejected v
+                return dict(vals=[], raised=type(e).__name__)
         return run
 
     def process(self, want_functions=False):
@@ -94,7 +101,7 @@ class FPInvariant:
                     R['triggers']['fp.live_objects_positive'] = R['triggers'].get('fp.live_objects_positive', 0) + 1
                 elif r == 'sat':
                     try:
-                        got = self._op(what, kind, u1, u2, vals['v'], vals.get('k'))
+                        got, _r = self._op(what, kind, u1, u2, vals['v'], vals.get('k'))
                         bad = [g for g in got if not (g > 0)]
                     except (ValueError, ZeroDivisionError):
                         bad = []
@@ -123,7 +130,7 @@ class FPInvariant:
     def replay(self, data):
         i = data['inputs']
         try:
-            got = self._op(i['what'], i['kind'], i['u1'], i['u2'], i['v'], i.get('k'))
+            got, _r = self._op(i['what'], i['kind'], i['u1'], i['u2'], i['v'], i.get('k'))
         except (ValueError, ZeroDivisionError) as e:
             print('replay raised', repr(e))
             return 0
